@@ -1,8 +1,15 @@
-//! Seeded generator of derive inputs: wide requests the repository's tests lack. Width matters
-//! because a hash-ordered container only misbehaves visibly with >= 2 keys, so most generated
-//! inputs carry >= 2 traits, >= 2 generic parameters, >= 2 delegated field types, >= 2 variants and
-//! (for Into) 2..6 targets. A fraction is deliberately erroneous with >= 2 independent faults so
-//! that "which diagnostic wins" is exercised too.
+//! Seeded generator of derive inputs: wide requests the repository's tests lack.
+//!
+//! * Width: a hash-ordered container only misbehaves visibly with >= 2 keys, so most inputs carry
+//!   >= 2 traits, >= 2 generic parameters, >= 2 (often repeated) field types, >= 2 variants and, for
+//!   Into, 2..6 targets.
+//! * Shared vocabulary: type names, generic-parameter names, user type names and field names are
+//!   drawn from small pools shared by all inputs, so that two inputs of one run frequently spell the
+//!   same identifier or the same field type with a *different meaning* (`Item` a generic parameter
+//!   here, a concrete type there). Anything memoised by spelling across expansions is exposed.
+//! * Faults: a catalogue of fault classes (one per diagnostic the crate can produce); an erroneous
+//!   input gets 1..3 classes, and within a class usually >= 2 independent instances, so that "which
+//!   diagnostic wins" and "in which order are several reported" are exercised.
 
 use crate::prng::Rng;
 
@@ -17,6 +24,9 @@ const PRIMS: [&str; 12] =
 const INTO_TARGETS: [&str; 10] =
     ["u8", "u16", "u32", "u64", "u128", "i16", "i32", "i64", "f64", "String"];
 
+/// names that are generic parameters in some inputs and concrete user types in others
+const VOCAB: [&str; 8] = ["T", "K", "U", "V", "Item", "Key", "Node", "Error"];
+
 #[derive(Clone, Copy, PartialEq, Eq, Debug)]
 pub enum Kind {
     StructNamed,
@@ -26,6 +36,7 @@ pub enum Kind {
     Union,
 }
 
+#[derive(Clone)]
 struct Generics {
     lifetimes: Vec<&'static str>,
     types: Vec<&'static str>,
@@ -34,21 +45,55 @@ struct Generics {
     decl: String,
 }
 
+#[derive(Clone)]
+struct Field {
+    name: Option<String>,
+    ty: String,
+    attrs: Vec<String>,
+}
+
+#[derive(Clone, Copy, PartialEq, Eq)]
+enum Shape {
+    Unit,
+    Tuple,
+    Named,
+}
+
+#[derive(Clone)]
+struct Variant {
+    name: String,
+    attrs: Vec<String>,
+    shape: Shape,
+    fields: Vec<Field>,
+    disc: Option<i64>,
+}
+
+struct Model {
+    kind: Kind,
+    name: String,
+    g: Generics,
+    traits: Vec<&'static str>,
+    type_frags: Vec<String>,
+    into_targets: Vec<String>,
+    fields: Vec<Field>,
+    variants: Vec<Variant>,
+    repr: Option<&'static str>,
+    vis: &'static str,
+}
+
 fn gen_generics(rng: &mut Rng, wide: bool) -> Generics {
-    let mut g = Generics {
-        lifetimes: vec![],
-        types: vec![],
-        consts: vec![],
-        where_clause: String::new(),
-        decl: String::new(),
-    };
+    let mut g = Generics { lifetimes: vec![], types: vec![], consts: vec![], where_clause: String::new(), decl: String::new() };
     let n_types = if wide { rng.range(2, 4) } else { rng.below(3) } as usize;
-    let names = ["T", "K", "U", "V"];
     if rng.chance(1, 4) {
         g.lifetimes.push("'a");
     }
-    for n in names.iter().take(n_types) {
-        g.types.push(n);
+    // mostly the conventional T, K, U, V in order; sometimes names from the shared vocabulary
+    if rng.chance(1, 4) {
+        let mut pool: Vec<&'static str> = VOCAB.to_vec();
+        rng.shuffle(&mut pool);
+        g.types = pool.into_iter().take(n_types).collect();
+    } else {
+        g.types = VOCAB.iter().take(n_types).copied().collect();
     }
     if rng.chance(1, 6) {
         g.consts.push("N");
@@ -85,8 +130,23 @@ fn gen_generics(rng: &mut Rng, wide: bool) -> Generics {
     g
 }
 
+fn gen_leaf(rng: &mut Rng, g: &Generics) -> String {
+    match rng.below(20) {
+        0..=8 if !g.types.is_empty() => rng.pick(&g.types).to_string(),
+        9..=10 => {
+            // a *concrete* user type whose name is a generic parameter elsewhere
+            let cands: Vec<&&str> = VOCAB.iter().filter(|v| !g.types.contains(v)).collect();
+            if cands.is_empty() {
+                rng.pick(&PRIMS).to_string()
+            } else {
+                rng.pick(&cands).to_string()
+            }
+        },
+        _ => rng.pick(&PRIMS).to_string(),
+    }
+}
+
 fn gen_type(rng: &mut Rng, g: &Generics, depth: u32) -> String {
-    let use_generic = !g.types.is_empty() && rng.chance(1, 2);
     if depth < 2 && rng.chance(1, 4) {
         let inner = gen_type(rng, g, depth + 1);
         return match rng.below(7) {
@@ -101,10 +161,21 @@ fn gen_type(rng: &mut Rng, g: &Generics, depth: u32) -> String {
             _ => format!("std::rc::Rc<{inner}>"),
         };
     }
-    if use_generic {
-        rng.pick(&g.types).to_string()
-    } else {
-        rng.pick(&PRIMS).to_string()
+    gen_leaf(rng, g)
+}
+
+fn trait_bound_path(tr: &str) -> &'static str {
+    match tr {
+        "Debug" => "::core::fmt::Debug",
+        "Clone" => "Clone",
+        "Copy" => "Copy",
+        "PartialEq" => "PartialEq",
+        "Eq" => "Eq",
+        "PartialOrd" => "PartialOrd",
+        "Ord" => "Ord",
+        "Hash" => "::core::hash::Hash",
+        "Default" => "Default",
+        _ => "Into<u8>",
     }
 }
 
@@ -116,18 +187,7 @@ fn gen_bound(rng: &mut Rng, g: &Generics, tr: &str) -> Option<String> {
             let mut preds = vec![];
             for t in &g.types {
                 if rng.chance(2, 3) {
-                    let b = match tr {
-                        "Debug" => "::core::fmt::Debug",
-                        "Clone" => "Clone",
-                        "Copy" => "Copy",
-                        "PartialEq" => "PartialEq",
-                        "Eq" => "Eq",
-                        "PartialOrd" => "PartialOrd",
-                        "Ord" => "Ord",
-                        "Hash" => "::core::hash::Hash",
-                        "Default" => "Default",
-                        _ => "Into<u8>",
-                    };
+                    let b = trait_bound_path(tr);
                     if rng.chance(1, 3) {
                         preds.push(format!("{t}: {b} + 'static"));
                     } else {
@@ -147,12 +207,6 @@ fn gen_bound(rng: &mut Rng, g: &Generics, tr: &str) -> Option<String> {
     }
 }
 
-struct Field {
-    name: Option<String>,
-    ty: String,
-    attrs: Vec<String>,
-}
-
 fn method_path(rng: &mut Rng, what: &str) -> String {
     match rng.below(3) {
         0 => what.to_string(),
@@ -161,67 +215,76 @@ fn method_path(rng: &mut Rng, what: &str) -> String {
     }
 }
 
-/// field-level attribute fragments for the requested traits
+/// one field-level attribute fragment for trait `tr` (valid form)
+fn field_attr_for(rng: &mut Rng, tr: &str, idx: usize, named: bool) -> Option<String> {
+    Some(match tr {
+        "Debug" => match rng.below(5) {
+            0 => "Debug(ignore)".to_string(),
+            1 if named => format!("Debug(name(renamed{idx}))"),
+            2 => format!("Debug(method({}))", method_path(rng, "fmt")),
+            3 => "Debug = false".to_string(),
+            _ if named => format!("Debug = alias{idx}"),
+            _ => "Debug(ignore)".to_string(),
+        },
+        "Clone" => format!("Clone(method({}))", method_path(rng, "clone")),
+        "PartialEq" => match rng.below(3) {
+            0 => "PartialEq(ignore)".to_string(),
+            1 => format!("PartialEq(method({}))", method_path(rng, "eq")),
+            _ => "PartialEq = false".to_string(),
+        },
+        "PartialOrd" => match rng.below(4) {
+            0 => "PartialOrd(ignore)".to_string(),
+            1 => format!("PartialOrd(method({}))", method_path(rng, "partial_cmp")),
+            2 => format!("PartialOrd(rank = {})", rng.below(7) as i64 - 2 + 10 * idx as i64),
+            _ => "PartialOrd = false".to_string(),
+        },
+        "Ord" => match rng.below(4) {
+            0 => "Ord(ignore)".to_string(),
+            1 => format!("Ord(method({}))", method_path(rng, "cmp")),
+            2 => format!("Ord(rank = {})", rng.below(7) as i64 - 2 + 10 * idx as i64),
+            _ => "Ord = false".to_string(),
+        },
+        "Hash" => match rng.below(3) {
+            0 => "Hash(ignore)".to_string(),
+            1 => format!("Hash(method({}))", method_path(rng, "hash")),
+            _ => "Hash = false".to_string(),
+        },
+        "Default" => match rng.below(5) {
+            0 => format!("Default = {}", rng.below(100)),
+            1 => "Default = \"hi\"".to_string(),
+            2 => format!("Default(expression = {} + 1)", rng.below(9)),
+            3 => "Default(expression = ::core::default::Default::default())".to_string(),
+            _ => "Default = true".to_string(),
+        },
+        _ => return None,
+    })
+}
+
 fn gen_field_attrs(rng: &mut Rng, traits: &[&str], idx: usize, rich: bool, named: bool, default_ok: bool) -> Vec<String> {
     let mut out = vec![];
     let has = |t: &str| traits.contains(&t);
     for tr in traits {
-        if !rng.chance(if rich { 1 } else { 0 } + 1, 5) {
+        if !rng.chance(if rich { 2 } else { 1 }, 5) {
             continue;
         }
-        let a = match *tr {
-            "Debug" => match rng.below(5) {
-                0 => "Debug(ignore)".to_string(),
-                1 if named => format!("Debug(name(renamed{idx}))"),
-                2 => format!("Debug(method({}))", method_path(rng, "fmt")),
-                3 => "Debug = false".to_string(),
-                _ if named => format!("Debug = alias{idx}"),
-                _ => "Debug(ignore)".to_string(),
-            },
+        match *tr {
             "Clone" if has("Copy") => continue,
             "PartialOrd" if has("Ord") => continue,
             "Default" if !default_ok => continue,
-            "Clone" => format!("Clone(method({}))", method_path(rng, "clone")),
-            "PartialEq" => match rng.below(3) {
-                0 => "PartialEq(ignore)".to_string(),
-                1 => format!("PartialEq(method({}))", method_path(rng, "eq")),
-                _ => "PartialEq = false".to_string(),
-            },
-            "PartialOrd" => match rng.below(4) {
-                0 => "PartialOrd(ignore)".to_string(),
-                1 => format!("PartialOrd(method({}))", method_path(rng, "partial_cmp")),
-                2 => format!("PartialOrd(rank = {})", rng.below(7) as i64 - 2 + 10 * idx as i64),
-                _ => "PartialOrd = false".to_string(),
-            },
-            "Ord" => match rng.below(4) {
-                0 => "Ord(ignore)".to_string(),
-                1 => format!("Ord(method({}))", method_path(rng, "cmp")),
-                2 => format!("Ord(rank = {})", rng.below(7) as i64 - 2 + 10 * idx as i64),
-                _ => "Ord = false".to_string(),
-            },
-            "Hash" => match rng.below(3) {
-                0 => "Hash(ignore)".to_string(),
-                1 => format!("Hash(method({}))", method_path(rng, "hash")),
-                _ => "Hash = false".to_string(),
-            },
-            "Default" => match rng.below(5) {
-                0 => format!("Default = {}", rng.below(100)),
-                1 => "Default = \"hi\"".to_string(),
-                2 => format!("Default(expression = {} + 1)", rng.below(9)),
-                3 => "Default(expression = ::core::default::Default::default())".to_string(),
-                _ => "Default = true".to_string(),
-            },
-            _ => continue,
-        };
-        out.push(a);
+            _ => {},
+        }
+        if let Some(a) = field_attr_for(rng, tr, idx, named) {
+            out.push(a);
+        }
     }
     out
 }
 
 fn gen_fields(rng: &mut Rng, g: &Generics, named: bool, n: usize, traits: &[&str], rich: bool, default_ok: bool) -> Vec<Field> {
-    let mut v = vec![];
+    let mut v: Vec<Field> = vec![];
     for i in 0..n {
-        let ty = gen_type(rng, g, 0);
+        // repeated field types are common in real code and matter for de-duplicating helpers
+        let ty = if i > 0 && rng.chance(1, 3) { v[rng.usize(i)].ty.clone() } else { gen_type(rng, g, 0) };
         let attrs = gen_field_attrs(rng, traits, i, rich, named, default_ok);
         v.push(Field { name: if named { Some(format!("f{i}")) } else { None }, ty, attrs });
     }
@@ -263,7 +326,6 @@ fn pick_traits(rng: &mut Rng, kind: Kind, wide: bool) -> Vec<&'static str> {
     for t in pool.into_iter().take(want) {
         chosen.push(t);
     }
-    // keep declaration order pseudo-random but stable (the shuffle above decides it)
     if chosen.contains(&"Copy") && !chosen.contains(&"Clone") && rng.chance(3, 4) {
         chosen.push("Clone");
     }
@@ -280,8 +342,36 @@ pub struct GenOpts {
     pub into_heavy: bool,
 }
 
-/// Generate one derive input as source text. `name` becomes the type identifier.
-pub fn generate(rng: &mut Rng, name: &str, opts: &GenOpts) -> String {
+/// Deref / DerefMut / Into markers on fields (valid placement).
+fn decorate_markers(rng: &mut Rng, fields: &mut [Field], traits: &[&str], into_targets: &[String]) {
+    if fields.is_empty() {
+        return;
+    }
+    if traits.contains(&"Deref") && (fields.len() > 1 || rng.chance(1, 3)) {
+        let k = rng.usize(fields.len());
+        fields[k].attrs.push("Deref".to_string());
+    }
+    if traits.contains(&"DerefMut") && (fields.len() > 1 || rng.chance(1, 3)) {
+        let k = rng.usize(fields.len());
+        fields[k].attrs.push("DerefMut".to_string());
+    }
+    if traits.contains(&"Into") {
+        for t in into_targets {
+            if fields.len() == 1 && rng.chance(1, 2) {
+                continue; // single field: implicit
+            }
+            let k = rng.usize(fields.len());
+            let frag = if rng.chance(1, 3) {
+                format!("Into({t}, method({}))", method_path(rng, "into"))
+            } else {
+                format!("Into({t})")
+            };
+            fields[k].attrs.push(frag);
+        }
+    }
+}
+
+fn build_model(rng: &mut Rng, name: &str, opts: &GenOpts) -> Model {
     let kind = match rng.below(100) {
         0..=34 => Kind::StructNamed,
         35..=49 => Kind::StructTuple,
@@ -289,11 +379,7 @@ pub fn generate(rng: &mut Rng, name: &str, opts: &GenOpts) -> String {
         53..=92 => Kind::Enum,
         _ => Kind::Union,
     };
-    let kind = if opts.into_heavy && matches!(kind, Kind::Union | Kind::StructUnit) {
-        Kind::StructNamed
-    } else {
-        kind
-    };
+    let kind = if opts.into_heavy && matches!(kind, Kind::Union | Kind::StructUnit) { Kind::StructNamed } else { kind };
     let wide = rng.chance(3, 4);
     let g = gen_generics(rng, wide && kind != Kind::Union);
     let mut traits = pick_traits(rng, kind, wide);
@@ -301,7 +387,6 @@ pub fn generate(rng: &mut Rng, name: &str, opts: &GenOpts) -> String {
         traits.push("Into");
     }
     let rich = rng.chance(1, 2);
-    let errors = rng.chance(opts.error_pct, 100);
 
     // ---------------- type-level fragments
     let mut type_frags: Vec<String> = vec![];
@@ -374,20 +459,15 @@ pub fn generate(rng: &mut Rng, name: &str, opts: &GenOpts) -> String {
     }
 
     // ---------------- body
-    let field_traits: Vec<&str> = traits.clone();
-    let mut body = String::new();
-    let mut header_kw = "struct";
-    let mut tail = String::new();
+    let mut fields: Vec<Field> = vec![];
+    let mut variants: Vec<Variant> = vec![];
     match kind {
-        Kind::StructUnit => {
-            tail = ";".to_string();
-        },
+        Kind::StructUnit => {},
         Kind::StructNamed | Kind::StructTuple | Kind::Union => {
             let named = kind != Kind::StructTuple;
             let n = if wide { rng.range(2, 8) } else { rng.range(1, 3) } as usize;
-            let mut fields = gen_fields(rng, &g, named, n, &field_traits, rich, true);
+            fields = gen_fields(rng, &g, named, n, &traits, rich, true);
             if kind == Kind::Union {
-                header_kw = "union";
                 for f in fields.iter_mut() {
                     f.ty = rng.pick(&["u8", "u16", "u32", "u64", "f32", "[u8; 8]"]).to_string();
                     f.attrs.retain(|a| a.starts_with("Default"));
@@ -404,155 +484,445 @@ pub fn generate(rng: &mut Rng, name: &str, opts: &GenOpts) -> String {
                     }
                 }
             }
-            decorate_markers(rng, &mut fields, &traits, &into_targets, errors);
-            if named {
-                body = format!(" {{\n{}}}", render_fields(rng, &fields, true, "    "));
-            } else {
-                body = format!("(\n{})", render_fields(rng, &fields, false, "    "));
-                tail = ";".to_string();
-            }
+            decorate_markers(rng, &mut fields, &traits, &into_targets);
         },
         Kind::Enum => {
-            header_kw = "enum";
             let nv = if wide { rng.range(2, 6) } else { rng.range(1, 3) } as usize;
             let default_variant = rng.usize(nv);
-            let mut vs = String::new();
             let with_disc = rng.chance(1, 4);
+            let no_unit = traits.iter().any(|t| matches!(*t, "Deref" | "DerefMut" | "Into"));
             for vi in 0..nv {
-                let no_unit = traits.iter().any(|t| matches!(*t, "Deref" | "DerefMut" | "Into"));
-                let shape = if no_unit { rng.range(1, 2) } else { rng.below(3) };
+                let shape = match if no_unit { rng.range(1, 2) } else { rng.below(3) } {
+                    0 => Shape::Unit,
+                    1 => Shape::Tuple,
+                    _ => Shape::Named,
+                };
                 let is_default = vi == default_variant;
                 let mut vattrs: Vec<String> = vec![];
                 if traits.contains(&"Debug") && rng.chance(1, 4) {
                     vattrs.push(match rng.below(3) {
-                        1 if shape != 0 => "Debug(name = false)".to_string(),
-                        2 if shape != 0 => format!("Debug(named_field = {})", rng.chance(1, 2)),
+                        1 if shape != Shape::Unit => "Debug(name = false)".to_string(),
+                        2 if shape != Shape::Unit => format!("Debug(named_field = {})", rng.chance(1, 2)),
                         _ => format!("Debug(name(Variant{vi}Renamed))"),
                     });
                 }
-                if traits.contains(&"Default") && vi == default_variant {
+                if traits.contains(&"Default") && is_default {
                     vattrs.push("Default".to_string());
                 }
-                vs.push_str(&render_attr_list(rng, &vattrs, "    "));
-                match shape {
-                    0 => {
-                        if with_disc {
-                            vs.push_str(&format!("    V{vi} = {},\n", (vi as i64) * 3 - 2));
-                        } else {
-                            vs.push_str(&format!("    V{vi},\n"));
-                        }
+                let mut vfields = vec![];
+                if shape != Shape::Unit {
+                    let n = rng.range(1, 4) as usize;
+                    vfields = gen_fields(rng, &g, shape == Shape::Named, n, &traits, rich, is_default);
+                    decorate_markers(rng, &mut vfields, &traits, &into_targets);
+                }
+                variants.push(Variant {
+                    name: format!("V{vi}"),
+                    attrs: vattrs,
+                    shape,
+                    fields: vfields,
+                    disc: if with_disc && shape == Shape::Unit { Some((vi as i64) * 3 - 2) } else { None },
+                });
+            }
+        },
+    }
+    let repr = if kind == Kind::Enum && rng.chance(1, 5) { Some(*rng.pick(&["u8", "i32", "u64", "C"])) } else { None };
+    let vis = *rng.pick(&["", "pub ", "pub(crate) "]);
+    Model { kind, name: name.to_string(), g, traits, type_frags, into_targets, fields, variants, repr, vis }
+}
+
+fn render(rng: &mut Rng, m: &Model) -> String {
+    let mut s = String::new();
+    s.push_str("#[derive(Educe)]\n");
+    if let Some(r) = m.repr {
+        s.push_str(&format!("#[repr({r})]\n"));
+    }
+    s.push_str(&render_attr_list(rng, &m.type_frags, ""));
+    let (name, vis, g) = (&m.name, m.vis, &m.g);
+    match m.kind {
+        Kind::StructUnit => s.push_str(&format!("{vis}struct {name}{}{};\n", g.decl, g.where_clause)),
+        Kind::StructTuple => s.push_str(&format!(
+            "{vis}struct {name}{}(\n{}){};\n",
+            g.decl,
+            render_fields(rng, &m.fields, false, "    "),
+            g.where_clause
+        )),
+        Kind::StructNamed | Kind::Union => s.push_str(&format!(
+            "{vis}{} {name}{}{} {{\n{}}}\n",
+            if m.kind == Kind::Union { "union" } else { "struct" },
+            g.decl,
+            g.where_clause,
+            render_fields(rng, &m.fields, true, "    ")
+        )),
+        Kind::Enum => {
+            let mut vs = String::new();
+            for v in &m.variants {
+                vs.push_str(&render_attr_list(rng, &v.attrs, "    "));
+                match v.shape {
+                    Shape::Unit => match v.disc {
+                        Some(d) => vs.push_str(&format!("    {} = {d},\n", v.name)),
+                        None => vs.push_str(&format!("    {},\n", v.name)),
                     },
-                    1 => {
-                        let n = rng.range(1, 4) as usize;
-                        let mut fields = gen_fields(rng, &g, false, n, &field_traits, rich, is_default);
-                        decorate_markers(rng, &mut fields, &traits, &into_targets, errors);
-                        vs.push_str(&format!(
-                            "    V{vi}(\n{}    ),\n",
-                            render_fields(rng, &fields, false, "        ")
-                        ));
+                    Shape::Tuple => {
+                        vs.push_str(&format!("    {}(\n{}    ),\n", v.name, render_fields(rng, &v.fields, false, "        ")))
                     },
-                    _ => {
-                        let n = rng.range(1, 4) as usize;
-                        let mut fields = gen_fields(rng, &g, true, n, &field_traits, rich, is_default);
-                        decorate_markers(rng, &mut fields, &traits, &into_targets, errors);
-                        vs.push_str(&format!(
-                            "    V{vi} {{\n{}    }},\n",
-                            render_fields(rng, &fields, true, "        ")
-                        ));
+                    Shape::Named => {
+                        vs.push_str(&format!("    {} {{\n{}    }},\n", v.name, render_fields(rng, &v.fields, true, "        ")))
                     },
                 }
             }
-            body = format!(" {{\n{vs}}}");
+            s.push_str(&format!("{vis}enum {name}{}{} {{\n{vs}}}\n", g.decl, g.where_clause));
         },
-    }
-
-    // ---------------- faults
-    if errors {
-        let n_faults = rng.range(1, 3);
-        for _ in 0..n_faults {
-            match rng.below(8) {
-                0 => {
-                    // duplicate trait
-                    if let Some(f) = type_frags.first().cloned() {
-                        type_frags.push(f);
-                    }
-                },
-                1 => type_frags.push("Serialize".to_string()),
-                2 => type_frags.push("Debug(nme = false)".to_string()),
-                3 => type_frags.push(format!("Into({})", rng.pick(&["i8", "isize", "Box<str>"]))),
-                4 => type_frags.push("Clone = 1".to_string()),
-                5 => type_frags.push("Hash()".to_string()),
-                6 => type_frags.push("Default(expression)".to_string()),
-                _ => type_frags.push("PartialOrd(rank = 1)".to_string()),
-            }
-        }
-        if rng.chance(1, 2) {
-            rng.shuffle(&mut type_frags);
-        }
-    }
-
-    let mut s = String::new();
-    s.push_str("#[derive(Educe)]\n");
-    if kind == Kind::Enum && rng.chance(1, 5) {
-        s.push_str(&format!("#[repr({})]\n", rng.pick(&["u8", "i32", "u64", "C"])));
-    }
-    s.push_str(&render_attr_list(rng, &type_frags, ""));
-    let vis = rng.pick(&["", "pub ", "pub(crate) "]);
-    if matches!(kind, Kind::StructTuple) {
-        // tuple struct: where clause goes after the fields
-        s.push_str(&format!("{vis}{header_kw} {name}{}{body}{}{tail}\n", g.decl, g.where_clause));
-    } else if kind == Kind::StructUnit {
-        s.push_str(&format!("{vis}{header_kw} {name}{}{}{tail}\n", g.decl, g.where_clause));
-    } else {
-        s.push_str(&format!("{vis}{header_kw} {name}{}{}{body}{tail}\n", g.decl, g.where_clause));
     }
     s
 }
 
-/// Deref / DerefMut / Into markers on fields. With `errors`, sometimes put >= 2 undeclared Into
-/// targets on one field and leave some targets without a candidate.
-fn decorate_markers(rng: &mut Rng, fields: &mut [Field], traits: &[&str], into_targets: &[String], errors: bool) {
-    if fields.is_empty() {
-        return;
+// ------------------------------------------------------------------ faults
+
+pub const FAULT_CLASSES: [&str; 17] = [
+    "repeated_traits",
+    "unsupported_traits",
+    "trait_not_used",
+    "union_unsupported",
+    "unit_variant_unsupported",
+    "parameter_reset",
+    "repeated_rank",
+    "repeated_into_type",
+    "into_field_problems",
+    "undeclared_into_targets",
+    "default_marker_problems",
+    "deref_marker_problems",
+    "union_without_unsafe",
+    "incorrect_format",
+    "incorrect_place",
+    "need_name",
+    "educe_format",
+];
+
+/// every field of the model (struct fields and fields of all variants)
+fn all_fields(m: &mut Model) -> Vec<&mut Field> {
+    let mut v: Vec<&mut Field> = m.fields.iter_mut().collect();
+    for var in m.variants.iter_mut() {
+        v.extend(var.fields.iter_mut());
     }
-    if traits.contains(&"Deref") && (fields.len() > 1 || rng.chance(1, 3)) {
-        let k = rng.usize(fields.len());
-        fields[k].attrs.push("Deref".to_string());
+    v
+}
+
+fn some_fields<'a>(rng: &mut Rng, m: &'a mut Model, want: usize) -> Vec<&'a mut Field> {
+    let mut fs = all_fields(m);
+    let n = fs.len();
+    if n == 0 {
+        return vec![];
     }
-    if traits.contains(&"DerefMut") && (fields.len() > 1 || rng.chance(1, 3)) {
-        let k = rng.usize(fields.len());
-        fields[k].attrs.push("DerefMut".to_string());
-    }
-    if traits.contains(&"Into") {
-        for t in into_targets {
-            if errors && rng.chance(1, 4) {
-                continue; // no candidate for this target
-            }
-            if fields.len() == 1 && rng.chance(1, 2) {
-                continue; // single field: implicit
-            }
-            let k = rng.usize(fields.len());
-            let frag = if rng.chance(1, 3) {
-                format!("Into({t}, method({}))", method_path(rng, "into"))
-            } else {
-                format!("Into({t})")
-            };
-            fields[k].attrs.push(frag);
+    // choose `want` distinct positions
+    let mut idx: Vec<usize> = (0..n).collect();
+    rng.shuffle(&mut idx);
+    idx.truncate(want.min(n));
+    idx.sort();
+    let mut out = vec![];
+    for (k, f) in fs.drain(..).enumerate() {
+        if idx.contains(&k) {
+            out.push(f);
         }
-        if errors && rng.chance(1, 2) {
-            // two or more undeclared targets on one field: which one is reported?
-            let k = rng.usize(fields.len());
-            let mut extra = vec!["i8", "isize", "u128x", "Box<str>", "Vec<u8>", "char"];
+    }
+    out
+}
+
+fn inject(rng: &mut Rng, m: &mut Model, class: &str) {
+    // how many independent instances of this fault
+    let k = if rng.chance(3, 4) { rng.range(2, 4) } else { 1 } as usize;
+    match class {
+        "repeated_traits" => {
+            let mut cands: Vec<String> = m.type_frags.iter().filter(|f| !f.starts_with("Into")).cloned().collect();
+            rng.shuffle(&mut cands);
+            for f in cands.into_iter().take(k) {
+                // repeat as a bare trait name or verbatim
+                let bare = f.split(['(', ' ', '=']).next().unwrap_or("Debug").to_string();
+                m.type_frags.push(if rng.chance(1, 2) { bare } else { f });
+            }
+        },
+        "unsupported_traits" => {
+            let mut names = vec!["Serialize", "Display", "Foo", "Send", "FromStr", "std::fmt::Binary"];
+            rng.shuffle(&mut names);
+            for n in names.into_iter().take(k) {
+                if rng.chance(2, 3) {
+                    m.type_frags.push(n.to_string());
+                } else if let Some(f) = some_fields(rng, m, 1).pop() {
+                    f.attrs.push(n.to_string());
+                } else {
+                    m.type_frags.push(n.to_string());
+                }
+            }
+        },
+        "trait_not_used" => {
+            let unused: Vec<&'static str> = TRAITS.iter().copied().filter(|t| !m.traits.contains(t) && !matches!(*t, "Copy" | "Eq" | "Deref" | "DerefMut" | "Into")).collect();
+            if unused.is_empty() {
+                return;
+            }
+            let trs: Vec<&'static str> = (0..k).map(|_| *rng.pick(&unused)).collect();
+            for (i, f) in some_fields(rng, m, k).into_iter().enumerate() {
+                let named = f.name.is_some();
+                if let Some(a) = field_attr_for(rng, trs[i % trs.len()], i, named) {
+                    f.attrs.push(a);
+                }
+            }
+            if rng.chance(1, 3) {
+                if let Some(v) = m.variants.first_mut() {
+                    v.attrs.push(format!("{}(name(X))", trs[0]));
+                }
+            }
+        },
+        "union_unsupported" => {
+            // a union asked for traits unions cannot have
+            if !matches!(m.kind, Kind::StructNamed | Kind::Union) || m.fields.is_empty() {
+                return;
+            }
+            m.kind = Kind::Union;
+            let mut bad = vec!["PartialOrd", "Ord", "Deref", "DerefMut", "Into(u8)"];
+            rng.shuffle(&mut bad);
+            for b in bad.into_iter().take(k.max(2)) {
+                if !m.type_frags.iter().any(|f| f.starts_with(b.split('(').next().unwrap())) {
+                    m.type_frags.push(b.to_string());
+                }
+            }
+        },
+        "unit_variant_unsupported" => {
+            if m.kind != Kind::Enum {
+                return;
+            }
+            for i in 0..k {
+                m.variants.push(Variant { name: format!("Unit{i}"), attrs: vec![], shape: Shape::Unit, fields: vec![], disc: None });
+            }
+            for b in ["Deref", "DerefMut", "Into(u16)"].iter().take(k.max(2)) {
+                if !m.type_frags.iter().any(|f| f.starts_with(b.split('(').next().unwrap())) {
+                    m.type_frags.push(b.to_string());
+                }
+            }
+        },
+        "parameter_reset" => {
+            for _ in 0..k {
+                match rng.below(5) {
+                    0 => m.type_frags.push("Debug(name = false, name(Twice))".to_string()),
+                    1 => m.type_frags.push("Clone(bound(*), bound = false)".to_string()),
+                    2 => m.type_frags.push("Default(new, new)".to_string()),
+                    3 => {
+                        if let Some(f) = some_fields(rng, m, 1).pop() {
+                            f.attrs.push("Ord(rank = 1, rank = 2)".to_string());
+                        }
+                    },
+                    _ => {
+                        if let Some(f) = some_fields(rng, m, 1).pop() {
+                            f.attrs.push("Hash(method(a), method(b))".to_string());
+                        }
+                    },
+                }
+            }
+        },
+        "repeated_rank" => {
+            for tr in ["PartialOrd", "Ord"] {
+                if !m.type_frags.iter().any(|f| f.split(['(', ' ']).next() == Some(tr)) && rng.chance(1, 2) {
+                    m.type_frags.push(tr.to_string());
+                }
+            }
+            let r1 = rng.below(5) as i64;
+            let r2 = r1 + 1;
+            for (i, f) in some_fields(rng, m, (2 * k).max(2)).into_iter().enumerate() {
+                let r = if i % 4 < 2 { r1 } else { r2 };
+                f.attrs.retain(|a| !a.starts_with("Ord") && !a.starts_with("PartialOrd"));
+                f.attrs.push(format!("{}(rank = {r})", if rng.chance(1, 2) { "Ord" } else { "PartialOrd" }));
+            }
+        },
+        "repeated_into_type" => {
+            let mut ts = vec!["u8", "u16", "String", "Vec<u8>", "i64"];
+            rng.shuffle(&mut ts);
+            for t in ts.into_iter().take(k) {
+                m.type_frags.push(format!("Into({t})"));
+                m.type_frags.push(format!("Into({t})"));
+            }
+        },
+        "into_field_problems" => {
+            // several targets; some claimed by two fields, some by none
+            let mut ts = vec!["u8", "u16", "u32", "i8", "i16", "String"];
+            rng.shuffle(&mut ts);
+            let ts: Vec<&str> = ts.into_iter().take(k.max(2)).collect();
+            for t in &ts {
+                if !m.type_frags.iter().any(|f| f.starts_with(&format!("Into({t}"))) {
+                    m.type_frags.push(format!("Into({t})"));
+                }
+            }
+            if rng.chance(1, 2) {
+                let t0 = ts[0].to_string();
+                let t1 = ts[ts.len() - 1].to_string();
+                for (i, f) in some_fields(rng, m, 4).into_iter().enumerate() {
+                    f.attrs.push(format!("Into({})", if i % 2 == 0 { &t0 } else { &t1 }));
+                }
+            }
+        },
+        "undeclared_into_targets" => {
+            if !m.type_frags.iter().any(|f| f.starts_with("Into")) {
+                m.type_frags.push("Into(u8)".to_string());
+            }
+            let mut extra = vec!["i8", "isize", "u128x", "Box<str>", "Vec<u8>", "char", "bool"];
             rng.shuffle(&mut extra);
-            for e in extra.iter().take(rng.range(2, 4) as usize) {
-                fields[k].attrs.push(format!("Into({e})"));
+            let n = k.max(2);
+            if let Some(f) = some_fields(rng, m, 1).pop() {
+                for e in extra.iter().take(n) {
+                    f.attrs.push(format!("Into({e})"));
+                }
             }
+        },
+        "default_marker_problems" => {
+            if !m.type_frags.iter().any(|f| f.starts_with("Default")) {
+                m.type_frags.push("Default".to_string());
+            }
+            match m.kind {
+                Kind::Enum => {
+                    if rng.chance(1, 2) {
+                        for v in m.variants.iter_mut() {
+                            v.attrs.retain(|a| a != "Default");
+                        }
+                    } else {
+                        for v in m.variants.iter_mut() {
+                            if !v.attrs.iter().any(|a| a == "Default") {
+                                v.attrs.push("Default".to_string());
+                            }
+                        }
+                    }
+                },
+                Kind::Union => {
+                    if rng.chance(1, 2) {
+                        for f in m.fields.iter_mut() {
+                            f.attrs.retain(|a| !a.starts_with("Default"));
+                        }
+                    } else {
+                        for f in m.fields.iter_mut() {
+                            if !f.attrs.iter().any(|a| a.starts_with("Default")) {
+                                f.attrs.push("Default".to_string());
+                            }
+                        }
+                    }
+                },
+                _ => {
+                    m.type_frags.push("Default(expression = Self::make(), new)".to_string());
+                },
+            }
+        },
+        "deref_marker_problems" => {
+            for tr in ["Deref", "DerefMut"] {
+                if !m.type_frags.iter().any(|f| f == tr) {
+                    m.type_frags.push(tr.to_string());
+                }
+            }
+            let all = rng.chance(1, 2);
+            for f in all_fields(m) {
+                f.attrs.retain(|a| a != "Deref" && a != "DerefMut");
+                if all {
+                    f.attrs.push("Deref".to_string());
+                    f.attrs.push("DerefMut".to_string());
+                }
+            }
+        },
+        "union_without_unsafe" => {
+            if !matches!(m.kind, Kind::StructNamed | Kind::Union) || m.fields.is_empty() {
+                return;
+            }
+            m.kind = Kind::Union;
+            m.type_frags.retain(|f| !f.starts_with("Debug") && !f.starts_with("PartialEq") && !f.starts_with("Hash"));
+            let mut need = vec!["Debug", "PartialEq", "Hash", "Debug(name(U))", "Hash()", "PartialEq()"];
+            rng.shuffle(&mut need);
+            let mut seen: Vec<&str> = vec![];
+            for n in need {
+                let base = n.split('(').next().unwrap();
+                if !seen.contains(&base) && seen.len() < k.max(2) {
+                    seen.push(base);
+                    m.type_frags.push(n.to_string());
+                }
+            }
+        },
+        "incorrect_format" => {
+            let mut bad = vec![
+                "Clone = 1", "Hash()", "Debug(nme = false)", "Default(expression)", "PartialOrd(rank = 1)",
+                "Eq(ignore)", "Copy = false", "Ord(method)", "PartialEq(bound)", "Into", "Into = u8", "Deref(x)",
+                "Debug(name)", "Debug(named_field = 3)", "Default = ", "Hash(bound(T))",
+            ];
+            rng.shuffle(&mut bad);
+            for b in bad.into_iter().take(k) {
+                if b == "Default = " {
+                    continue;
+                }
+                if rng.chance(2, 3) {
+                    m.type_frags.push(b.to_string());
+                } else if let Some(f) = some_fields(rng, m, 1).pop() {
+                    f.attrs.push(b.to_string());
+                }
+            }
+        },
+        "incorrect_place" => {
+            let n = k;
+            let frags = ["Copy", "Eq", "Clone", "Debug(bound(*))", "Default(new)", "Deref", "Into(u8, bound(*))"];
+            for f in some_fields(rng, m, n) {
+                f.attrs.push(rng.pick(&frags).to_string());
+            }
+            if let Some(v) = m.variants.last_mut() {
+                v.attrs.push(rng.pick(&["Copy", "Eq", "Hash(ignore)", "Clone(bound(*))"]).to_string());
+            }
+        },
+        "need_name" => {
+            m.type_frags.retain(|f| !f.starts_with("Debug"));
+            m.type_frags.push("Debug(name = false)".to_string());
+            match m.kind {
+                Kind::Enum => {
+                    for i in 0..k {
+                        m.variants.push(Variant { name: format!("Bare{i}"), attrs: vec![], shape: Shape::Unit, fields: vec![], disc: None });
+                    }
+                },
+                _ => {
+                    m.kind = Kind::StructUnit;
+                    m.fields.clear();
+                },
+            }
+        },
+        "educe_format" => {
+            // handled at render time through a marker fragment
+            m.type_frags.push("\u{1}educe_format".to_string());
+        },
+        _ => {},
+    }
+}
+
+/// Generate one derive input as source text. `name` becomes the type identifier.
+pub fn generate(rng: &mut Rng, name: &str, opts: &GenOpts) -> String {
+    let mut m = build_model(rng, name, opts);
+    let mut classes: Vec<&str> = vec![];
+    if rng.chance(opts.error_pct, 100) {
+        let n = rng.range(1, 3);
+        for _ in 0..n {
+            classes.push(*rng.pick(&FAULT_CLASSES));
+        }
+        for c in &classes {
+            inject(rng, &mut m, c);
+        }
+        if rng.chance(1, 2) {
+            rng.shuffle(&mut m.type_frags);
         }
     }
+    let malformed = m.type_frags.iter().any(|f| f.starts_with('\u{1}'));
+    m.type_frags.retain(|f| !f.starts_with('\u{1}'));
+    let mut s = render(rng, &m);
+    if malformed {
+        // `#[educe = ..]` / bare `#[educe]` instead of a list
+        let extra = *rng.pick(&["#[educe]\n", "#[educe = \"Debug\"]\n", "#[educe()]\n"]);
+        s = s.replacen("#[derive(Educe)]\n", &format!("#[derive(Educe)]\n{extra}"), 1);
+    }
+    s
 }
 
 /// A polluter that reuses `name` with a different body: defeats any cache keyed by identifier.
 pub fn same_name_variant(rng: &mut Rng, name: &str) -> String {
     let opts = GenOpts { error_pct: 10, into_heavy: rng.chance(1, 2) };
     generate(rng, name, &opts)
+}
+
+/// small pool of type names shared between inputs (collisions on purpose)
+pub fn shared_type_name(rng: &mut Rng) -> String {
+    rng.pick(&["Struct", "Enum", "Item", "Node", "Config", "G0", "G1", "G2"]).to_string()
 }
